@@ -24,7 +24,7 @@ Definition t_record (r : record) : tree :=
   N (map (fun kv => N [L (fst kv); t_opt L (snd kv)]) r).
 
 Definition parse_enc (s : string) : encoder :=
-  if String.eqb s "uri" then EncUri else if String.eqb s "none" then EncNone else EncStr.
+  if String.eqb s "uri" then EncUri else if String.eqb s "none" then EncNone else if String.eqb s "last" then EncLast else EncStr.
 
 (* put a node and its missing ancestors (as directories) *)
 Definition fs_put (F : fs) (p : string) (n : node) : fs :=
@@ -147,6 +147,17 @@ Definition run_fs (st : option Loaded) (rt : option Routing) (F : fs) (op : stri
     | "pfind", [_; _; _; _] => pure (N [L "raise"; L "Unmodelled"])
     | "find_paths", [L cfg; L q] => pure (t_out sorted_strs (ffind Ld F (FPaths "" (default_cfg Ld cfg)) q))
     | "find_all", [L q] => pure (t_out sorted_strs (find_all Ld Rt F q))
+    (* the search handed over as a Sid object built from the string: the same search *)
+    | "find_all", [L q; L "sidarg"] => pure (t_out sorted_strs (find_all Ld Rt F q))
+    | "find_list", [items; L q; L "sidarg"] =>
+        pure (match t_strs items, Sid Ld q with
+              | Some it, Ok x => t_out of_strs (find_g_sid Ld (fun qs => star_search qs it) x)
+              | Some _, Raise e => N [L "raise"; L (exn_name e)]
+              | None, _ => bad end)
+    | "find_paths", [L cfg; L q; L "sidarg"] =>
+        pure (match Sid Ld q with
+              | Ok x => t_out sorted_strs (find_g_sid Ld (fstar Ld F (FPaths "" (default_cfg Ld cfg))) x)
+              | Raise e => N [L "raise"; L (exn_name e)] end)
     (* find_one is the first result in enumeration order: modelled only when every unfolded search is a sorted (">") search *)
     | "find_all_one", [L q] =>
         match unfold_search Ld q false false with
